@@ -31,6 +31,14 @@ def typed_notation_cases(ctx):
             seen.add(key)
             one_tree(ctx, li, spec, ops, opdecls, lang, operators, tree, ninputs)
         match_cases(ctx, li, spec, ops, opdecls, lang, trees, ninputs)
+        # annotated texts (anonymous sources, inputs and sub-expressions with `: T`), with layout right before the colon
+        anns = X.gen_typed_trees(rng, lang, spec, opdecls, ninputs, rounds=2, per_round=8 if ctx.tier == "quick" else 20, p_ann=0.6)
+        for tree in anns:
+            annotation_layout_cases(ctx, li, spec, ops, opdecls, lang, X.tree_text(tree), ninputs)
+        # (and the shapes in which the annotated thing is an anonymous source that the operator does not accept at that type)
+        for nm, sch in opdecls[:4]:
+            for b in spec.bases()[:3]:
+                annotation_layout_cases(ctx, li, spec, ops, opdecls, lang, f"{nm} (- : {spec.name(b)})", ninputs)
 
 
 def one_tree(ctx, li, spec, ops, opdecls, lang, operators, tree, ninputs, report=True):
@@ -85,6 +93,26 @@ def one_tree(ctx, li, spec, ops, opdecls, lang, operators, tree, ninputs, report
     return ok
 
 
+def annotation_layout_cases(ctx, li, spec, ops, opdecls, lang, text, ninputs):
+    """layout and comments are neutral also right before an annotation's colon: `e⏎: T` and `e # c⏎: T` mean what `e : T` means
+    (defect D31: the parser remembered a line break as "the previous token", so `-⏎: T` was not an annotated anonymous source)"""
+    if " : " not in text:
+        return
+    ref, _, _, _ = X.obs_typed(lang, text, ninputs, ops)
+    ref_nofix, _, _, _ = X.obs_typed(lang, text, ninputs, ops, fix=False)
+    for sep in ("\n: ", " # c ( : \n : ", "\n\n : "):
+        variant = text.replace(" : ", sep)
+        obs, _, _, _ = X.obs_typed(lang, variant, ninputs, ops)
+        obs_nofix, _, _, _ = X.obs_typed(lang, variant, ninputs, ops, fix=False)
+        ctx.case(f"(texpr {ninputs} T {G.str_sexp(variant)})", obs, {"lang": spec.to_json(), "text": variant, "inputs": ninputs, "how": "annotation-layout"},
+            nontrivial=True, key=("annlayout", li, variant))
+        ctx.count("annotation_layout")
+        if obs != ref or obs_nofix != ref_nofix:
+            ctx.fail(f"{variant!r} parses to {obs if obs != ref else obs_nofix}; the same text with the colon on the same line, {text!r}, to {ref if obs != ref else ref_nofix}",
+                {"check": "annotation-layout"}, {"lang": spec.to_json(), "opdecls": [[n, s] for n, s in opdecls], "text": variant, "plain": text, "inputs": ninputs, "layout": True})
+            return
+
+
 def has_fun_or_unit(t):
     return t[0] in (G.FUN, G.UNIT) or any(has_fun_or_unit(a) for a in t[1])
 
@@ -102,6 +130,11 @@ def replay_typed(ctx, inp):
     ops = spec.build()
     opdecls = [(n, fix_schema(s)) for n, s in inp["opdecls"]]
     lang, operators = X.build_typed_language(spec, ops, opdecls)
+    if inp.get("layout"):
+        a, _, _, _ = X.obs_typed(lang, inp["text"], inp["inputs"], ops)
+        b, _, _, _ = X.obs_typed(lang, inp["plain"], inp["inputs"], ops)
+        print(repr(inp["text"]), "->", a[:200]); print(repr(inp["plain"]), "->", b[:200])
+        return a == b
     if "a" in inp:
         ea = lang.parse(inp["a"], *[E.Source() for _ in range(inp["inputs"])])
         eb = lang.parse(inp["b"], *[E.Source() for _ in range(inp["inputs"])])
